@@ -28,8 +28,13 @@ class ModelIter:
     def __iter__(self):
         return self
 
+    during = None        # optional callable run at the start of the next __next__ (something else happening meanwhile)
+
     def __next__(self):
         self.nexts += 1
+        if self.during is not None:
+            d, self.during = self.during, None
+            d()
         if self.raises_at is not None and self.pos == self.raises_at:
             raise KeyError("generator failed at %d" % self.pos)
         if self.pos >= self.total:
@@ -162,6 +167,59 @@ def h_table_step(S, B):
     S.observe("left", sorted(daemon.streaming_responses.keys()))
 
 
+def h_fetch_meanwhile(S, B):
+    """a client comes back to its lingering stream within the linger period; while the server iterator is producing the
+    item, the daemon's housekeeping runs (at a later clock value).  A stream that has outlived its lifetime by then is
+    forgotten for good (the fetch in progress does not bring it back); otherwise the re-attached stream lives on and the
+    next fetch continues with the next item."""
+    rig.reset(S)
+    daemon = rig.make_daemon()
+    dobj = daemon.objectsById[core.DAEMON_NAME]
+    connA = rig.connection(rig.FakeSock("A"))
+    now0 = S.real("now_at_fetch", 1)
+    now1 = S.real("now_at_housekeeping", 1)
+    created = S.real("created", 1)
+    lts = S.real("linger_since", 1)
+    lifetime = S.real("ITER_STREAM_LIFETIME", 0)
+    linger = S.real("ITER_STREAM_LINGER", 0)
+    S.assume(And(created <= lts, lts <= now0, now0 <= now1), "created, started lingering, fetch, housekeeping: in this order")
+    S.assume(And(linger > 0, now0 - lts < linger), "the client comes back within the linger period")
+    S.assume(Or(lifetime == 0, now0 - created < lifetime), "the stream is within its lifetime when the client comes back")
+    config.ITER_STREAM_LIFETIME = lifetime
+    config.ITER_STREAM_LINGER = linger
+    env.CLOCK.now = now0
+    it = ModelIter("s", 6, 2)
+    daemon.streaming_responses["s"] = (None, created, lts, it)
+
+    def housekeeping():
+        env.CLOCK.now = now1
+        daemon._housekeeping()
+    it.during = housekeeping
+    current_context.client = connA
+    first = second = None
+    err1 = err2 = None
+    try:
+        first = dobj.get_next_stream_item("s")
+    except Exception as x:
+        err1 = x
+    past_lifetime = And(lifetime > 0, now1 - created > lifetime)
+    within_lifetime = Or(lifetime == 0, now1 - created < lifetime)
+    S.cover("fetch-meanwhile")
+    S.check("fetch-in-progress-delivers-its-item", err1 is None and first == ("s", 2))
+    present = "s" in daemon.streaming_responses
+    S.check("stream-that-outlived-its-lifetime-stays-forgotten", Implies(past_lifetime, not present))
+    S.check("reattached-stream-within-its-lifetime-lives-on", Implies(within_lifetime, present))
+    try:
+        second = dobj.get_next_stream_item("s")
+    except Exception as x:
+        err2 = x
+    S.check("coming-back-to-a-forgotten-stream-is-an-error-never-an-item", Implies(past_lifetime, isinstance(err2, errors.PyroError) and second is None))
+    S.check("the-next-fetch-continues-with-the-next-item", Implies(within_lifetime, err2 is None and second == ("s", 3)))
+    if present and "s" in daemon.streaming_responses:
+        S.check("reattached-stream-is-owned-by-the-client-that-came-back", daemon.streaming_responses["s"][0] is connA)
+    S.observe("outcome", (first, type(err2).__name__ if err2 is not None else second))
+
+
 # ------------------------------------------------------------------------------------------------
 def count_up(name, total):
     for i in range(total):
@@ -285,6 +343,10 @@ SPECS = [
                  "check:disconnect-with-linger-keeps-stream-ownerless"],
          native_patch=env.native_env, reset=_reset,
          desc="one next/close/disconnect/housekeeping step from every stream table of <= 3 entries (owner A/B/lingering, symbolic creation and linger timestamps, 0..2 items left or failing), symbolic clock, lifetime and linger; requested id known or an arbitrary unknown string"),
+    Spec("fetch_meanwhile", h_fetch_meanwhile, {"quick": {}, "thorough": {}},
+         covers=["fetch-meanwhile", "check:stream-that-outlived-its-lifetime-stays-forgotten", "check:the-next-fetch-continues-with-the-next-item"],
+         native_patch=env.native_env, reset=_reset,
+         desc="a fetch on a lingering stream (client back within the linger period) during which the daemon's housekeeping runs at a later, symbolic clock value; symbolic creation/linger timestamps, lifetime and linger"),
     Spec("end_to_end", h_end_to_end, {"quick": {"STEPS": 4, "DROP_STEPS": [1]}, "thorough": {"STEPS": 6, "DROP_STEPS": [0, 2]}},
          covers=["e2e", "fetch-lost-then-reconnected", "check:X-stops-exactly-at-exhaustion", "check:X-reraises-the-generators-exception-at-its-position",
                  "check:server-forgets-finished-streams"],
